@@ -681,6 +681,9 @@ func (dr *dirRepo) indexLoad(force, locked bool) error {
 
 	mod, err := indexIngest(dr, &dr.index, dr.conf, locked)
 	if err != nil {
+		// the index is not complete, the next access loads it again
+		dr.timeIndex = time.Time{}
+		dr.timeCheck = time.Time{}
 		return err
 	}
 	if mod && !*dr.conf.Storage.ReadOnly {
